@@ -435,8 +435,99 @@ impl SealLog {
     }
 }
 
+pub fn c07_sweep_len(tier: Tier) -> u32 {
+    match tier {
+        Tier::Quick => 6,
+        Tier::Thorough => 8,
+    }
+}
+
+pub fn c07_sweep_size(tier: Tier) -> u64 {
+    6u64.pow(c07_sweep_len(tier))
+}
+
+/// Seed-indexed sweep over all short schedules over {rotation cycle at A, cycle at B, deliver oldest / newest
+/// in-flight rotation message, deliver a duplicate of the oldest, drop the oldest}; a probe in both directions
+/// after every step
+fn c07_sweep(l: &mut L1, seed: u64, ctx: &RunCtx) -> Result<(), Violation> {
+    let cipher = CIPHERS[(ctx.index % 3) as usize];
+    let mut p = establish(l, seed, &[cipher], &[cipher])?;
+    let mut flight: Vec<(char, Vec<u8>)> = vec![];
+    let mut idx = ctx.index;
+    let mut tag = 0u32;
+    l.count("c07_sweep_runs");
+    for _ in 0..c07_sweep_len(ctx.tier) {
+        let op = idx % 6;
+        idx /= 6;
+        l.ev(80 + op, &[]);
+        match op {
+            0 | 1 => {
+                let who = if op == 0 { 'A' } else { 'B' };
+                for _ in 0..120 {
+                    l.ticks += 1;
+                    for d in p.tick(who).map_err(|e| Violation::new("no-panic", "panic-in-tick", e))? {
+                        flight.push((if who == 'A' { 'B' } else { 'A' }, d));
+                        l.count("c07_rotation_messages_sent");
+                    }
+                }
+            }
+            2 | 3 | 4 => {
+                if flight.is_empty() {
+                    continue;
+                }
+                let k = if op == 3 { flight.len() - 1 } else { 0 };
+                let (to, d) = if op == 4 { flight[k].clone() } else { flight.remove(k) };
+                if op == 4 {
+                    l.count("fault_dup");
+                }
+                if k != 0 {
+                    l.count("fault_reorder");
+                }
+                match p.deliver(to, &d) {
+                    Handled::Err(e) if e.starts_with("panic") => return Err(Violation::new("no-panic", "panic-in-receive", e)),
+                    Handled::Ok { replies, .. } => {
+                        for r in replies {
+                            if !r.is_empty() {
+                                flight.push((if to == 'A' { 'B' } else { 'A' }, r));
+                            }
+                        }
+                    }
+                    _ => {}
+                }
+            }
+            _ => {
+                if !flight.is_empty() {
+                    flight.remove(0);
+                    l.count("fault_drop");
+                }
+            }
+        }
+        for (s, r) in [('A', 'B'), ('B', 'A')] {
+            tag += 1;
+            let mut body = tag.to_be_bytes().to_vec();
+            body.extend_from_slice(b"probe");
+            let dg = match p.seal(s, 0, &body) {
+                Some(d) => d,
+                None => return Err(Violation::new("rotation", "cannot-seal", format!("end {} cannot seal", s))),
+            };
+            let ok = matches!(p.deliver(r, &dg), Handled::Ok { message: Some((0, ref b)), .. } if *b == body);
+            l.count("c07_probes_checked");
+            if !ok {
+                return Err(Violation::new("rotation", "fresh-payload-not-decryptable", format!("sweep schedule {}: after operation {} a datagram freshly sealed by {} does not open at {}", ctx.index, op, s, r)));
+            }
+        }
+    }
+    absorb_activity(l, &p);
+    Ok(())
+}
+
 pub fn c07(seed: u64, ch: Chooser, ctx: &RunCtx) -> RunOut {
     let mut l = L1::new(ch, ctx);
+    if ctx.index < c07_sweep_size(ctx.tier) {
+        let res = c07_sweep(&mut l, seed, ctx);
+        let nt = l.counters.get("c07_probes_checked").copied().unwrap_or(0) > 0;
+        return l.finish(res, nt);
+    }
     let res = lifetime(&mut l, seed, ctx, true);
     let nt = l.counters.get("c07_probes_checked").copied().unwrap_or(0) > 0;
     l.finish(res, nt)
